@@ -2,6 +2,7 @@
     Statements only; proofs in Proofs/UndoProofs.v.  Model of the repaired code (fix: c0a4186);
     the pre-repair witness is corpus/C10.cases. *)
 From RRE Require Import Base.Sx Model.Undo Proofs.UndoProofs.
+From RRE Require Model.Backward Proofs.BackwardProofs.
 Open Scope N_scope.
 
 (** For every initial store and every sequence of begin/commit/rollback/set/set_nested/remove, the
@@ -25,6 +26,14 @@ Print Assumptions C10_rollback_restores.
 Theorem C10_monitor_accepts_model : forall nk kv ops, ok nk kv ops (run nk kv ops) = true.
 Proof. exact ok_run. Qed.
 Print Assumptions C10_monitor_accepts_model.
+
+(** Query part: a backward-chaining search (Model/Backward.v, the depth-first search of search.rs after
+    repairs ab15463 / 692df85) that does not prove its goal hands back exactly the facts it was given -
+    at every recursion level, whatever intermediate facts its proof attempts derived. *)
+Theorem C10_failed_query_restores : forall rules max_depth fuel goal cands depth f f',
+  Backward.search rules max_depth fuel goal cands depth f = (false, f') -> f' = f.
+Proof. exact BackwardProofs.search_failure_restores. Qed.
+Print Assumptions C10_failed_query_restores.
 
 (** non-vacuity: the pre-repair witness begin; begin; set k 1; commit; rollback *)
 Example C10_example :
